@@ -3,28 +3,30 @@
 EXTENDS Handshake, Json
 CONSTANTS MaxBudget, MaxExtras
 VARIABLE s
-Kinds == {"ok", "fail", "noresult", "nooh", "noapps", "unsupapps", "vsaunsup", "vsaok", "silence", "eof"}
+Kinds == {"ok", "fail", "noresult", "nooh", "noapps", "unsupapps", "vsaunsup", "vsaok", "relayok", "silence", "eof"}
 Extras == {"dupok", "latefail", "latemalformed"}
 Seqs(S, n) == UNION {[1..k -> S] : k \in 0..n}
 \* stall: milliseconds the transport takes to accept each CER (back-pressure); the spacing is
 \* measured between the ends of the writes.  redial: the same client / state machine has
 \* completed an earlier dial from another local address.
-Init == s \in {[budget |-> b, interval |-> 40, kind |-> k, at |-> a, extras |-> <<>>, stall |-> 0, redial |-> FALSE, shared |-> FALSE, cfg |-> ""] :
-                  b \in 0..MaxBudget, k \in Kinds, a \in 1..(MaxBudget + 1)}
-         \cup {[budget |-> b, interval |-> 40, kind |-> k, at |-> b + 1, extras |-> <<>>, stall |-> 25, redial |-> r, shared |-> FALSE, cfg |-> ""] :
-                  b \in 1..MaxBudget, k \in {"ok", "silence", "fail"}, r \in BOOLEAN}
+S(b, k, a) == [budget |-> b, interval |-> 40, kind |-> k, at |-> a, extras |-> <<>>, stall |-> 0, redial |-> FALSE, shared |-> FALSE,
+               cfg |-> "", local |-> "", during |-> FALSE]
+Init == s \in {S(b, k, a) : b \in 0..MaxBudget, k \in Kinds, a \in 1..(MaxBudget + 1)}
+         \cup {[S(b, k, b + 1) EXCEPT !.stall = 25, !.redial = r] : b \in 1..MaxBudget, k \in {"ok", "silence", "fail"}, r \in BOOLEAN}
          \* shared: another connection of the same client (and state machine) is up, and its peer repeats
          \* its CEA there while this dial is waiting: this dial's outcome depends on its own peer only
-         \cup {[budget |-> b, interval |-> 40, kind |-> k, at |-> a, extras |-> <<>>, stall |-> 0, redial |-> FALSE, shared |-> TRUE, cfg |-> ""] :
-                  b \in 0..1, k \in {"ok", "fail", "silence", "unsupapps"}, a \in 1..2}
-         \* cfg: the client was told to advertise an application of that type which its dictionary does not
-         \* support: the dial fails at once, nothing is sent
-         \cup {[budget |-> b, interval |-> 40, kind |-> "ok", at |-> 1, extras |-> <<>>, stall |-> 0, redial |-> FALSE, shared |-> FALSE, cfg |-> c] :
-                  b \in 0..1, c \in {"acct", "auth", "vsa"}}
-         \cup {[budget |-> 0, interval |-> 40, kind |-> "ok", at |-> 1, extras |-> <<>>, stall |-> 0, redial |-> TRUE, shared |-> FALSE, cfg |-> ""]}
+         \cup {[S(b, k, a) EXCEPT !.shared = TRUE] : b \in 0..1, k \in {"ok", "fail", "silence", "unsupapps"}, a \in 1..2}
+         \* cfg: the client was told to advertise one more application, of that type, which its dictionary lacks
+         \cup {[S(b, "ok", 1) EXCEPT !.cfg = c] : b \in 0..1, c \in {"acct", "auth", "vsa"}}
+         \cup {[S(0, "ok", 1) EXCEPT !.redial = TRUE]}
+         \* local: the only local address of the transport is link-local (IPv4 169.254/16, IPv6 fe80::/10 with a zone)
+         \cup {[S(b, k, 1) EXCEPT !.local = x] : b \in 0..1, k \in {"ok", "fail"}, x \in {"ll4", "ll6"}}
+         \* during: the answer to the at-th CER is delivered while the transport is still busy (80 ms) accepting
+         \* the next transmission, i.e. it is handled before the dialling goroutine is back in its select
+         \cup {[S(b, k, a) EXCEPT !.during = TRUE] : b \in 1..MaxBudget, k \in {"ok", "fail", "noresult", "unsupapps"}, a \in 1..MaxBudget}
 Next == /\ s.kind = "ok" /\ Answers(s) /\ s.cfg = "" /\ Len(s.extras) < MaxExtras
         /\ \E x \in Extras : s' = [s EXCEPT !.extras = Append(@, x)]
-Canon == (s.kind = "silence" => (s.at = 1 \/ s.stall > 0)) /\ s.at <= s.budget + 1
+Canon == (s.kind = "silence" => (s.at = 1 \/ s.stall > 0)) /\ s.at <= s.budget + 1 /\ (s.during => s.at <= s.budget)
 \* R1: the expectation is well defined: a script either succeeds or names at least one admissible error
 WellDefined == ExpectOK(s) \/ ErrClasses(s) # {}
 Emit == ~Canon \/ PrintT(ToJson(s))
